@@ -232,3 +232,36 @@ pub fn block_size_of_text_ptr(p: *const u8) -> usize {
         r
     }
 }
+
+/// Stub for `castaway::utils::type_eq_non_static` (used by `to_lean_string`'s `match_type!`).
+/// The original obtains a `TypeId` through a `dyn` call, which the model checker cannot resolve
+/// statically, so every arm of the type dispatch stays live (and the float/128-bit arms then run on
+/// reinterpreted garbage).  Type equality is decided by `type_name` instead - exact for the
+/// lifetime-free types the dispatch distinguishes.  The order of the arms and their bodies are the
+/// crate's own code.
+pub fn type_eq_stub<T: ?Sized, U: ?Sized>() -> bool {
+    let a = core::any::type_name::<T>().as_bytes();
+    let b = core::any::type_name::<U>().as_bytes();
+    if a.len() != b.len() {
+        return false;
+    }
+    let mut i = 0;
+    let mut eq = true;
+    while i < a.len() {
+        if a[i] != b[i] {
+            eq = false;
+        }
+        i += 1;
+    }
+    eq
+}
+
+/// `Global::{deallocate,grow,shrink}` of this toolchain call the private `dealloc_nonnull` /
+/// `realloc_nonnull` instead of the public functions; route them to the shim too so that
+/// harness-side `String`/`Box` values are accounted consistently.
+pub unsafe fn shim_dealloc_nonnull(ptr: core::ptr::NonNull<u8>, layout: Layout) {
+    unsafe { shim_dealloc(ptr.as_ptr(), layout) }
+}
+pub unsafe fn shim_realloc_nonnull(ptr: core::ptr::NonNull<u8>, layout: Layout, new_size: usize) -> *mut u8 {
+    unsafe { shim_realloc(ptr.as_ptr(), layout, new_size) }
+}
